@@ -137,6 +137,9 @@ func (c *checker) resolveType(tx *TypeExpr, um unsizedMode) *Type {
 		}
 	}
 	tx.T = t
+	if t.containsKind(KDouble) {
+		c.prog.usesDouble = true
+	}
 	return t
 }
 
@@ -267,6 +270,9 @@ func (c *checker) expr(e Expr) Expr {
 	switch x := e.(type) {
 	case *Lit:
 		x.T = x.V.T
+		if x.T == tDouble {
+			c.prog.usesDouble = true
+		}
 		x.Const = true
 		v := x.V
 		x.CV = &v
